@@ -196,6 +196,8 @@ def rule_flag_id(ctx, py):
               "increment " + pyfe.src(node.value), "net stoichiometry of the same species", "increment of another species")
     # make_dxdtf: the factor of dxdt[s] is built from the flag of species s
     g = py.fn("rdsystem.RDSystem.make_dxdtf")
+    from .. import pynorm
+    g = pynorm.renamed(g, pynorm.dxdtf_roles(g))     # locals identified by what they are defined as
     inner = [n for n in ast.walk(g) if isinstance(n, ast.FunctionDef) and n is not g]
     ctx.need(len(inner) == 1, R, "make_dxdtf: inner function not found")
     d = inner[0]
